@@ -318,9 +318,19 @@ func c10HeaviestTip(w *core.WorkerCtx) {
 	rng := core.Rand(w.Seed, "C10heavy", w.Batch)
 	desc := fmt.Sprintf("c10 forbidden proposals on top of tips of maximal weight seed=%d batch=%d", w.Seed, w.Batch)
 	w.Mark("%s", desc)
-	for _, heavy := range []uint64{^uint64(0), ^uint64(0) - 1, 1 << 63} {
+	for _, heavy := range []uint64{^uint64(0), ^uint64(0) - 1, 1 << 63, 2} {
 		world := ledger.NewWorld(rng, w.R, []string{"C10"}, allSnapOracles, desc)
-		if _, err := ledger.Setup(world, ledger.Profile{Nodes: 2, Users: 4, SupplyClass: 0, Delivery: "lockstep"}); err != nil {
+		if heavy == 2 {
+			// an ordinary weight, and wallets with the shortest addresses there are (every wallet of this world is the
+			// shortest of 400: 49 characters, which about one wallet in 250 has)
+			ledger.ShortestOf = 400
+		}
+		_, err := ledger.Setup(world, ledger.Profile{Nodes: 2, Users: 4, SupplyClass: 0, Delivery: "lockstep"})
+		ledger.ShortestOf = 0
+		if heavy == 2 {
+			w.R.Count(fmt.Sprintf("c10_node_address_length_%d", len(world.Nodes[1].Actor.Addr)), 1)
+		}
+		if err != nil {
 			w.R.Inconc("setup failed: " + err.Error())
 			world.Close()
 			return
